@@ -1148,8 +1148,24 @@ func main() {
 	// long lists: alternating runs of two keys (run lengths = all compositions of n into at most R parts)
 	// every length from 5 to 40 (a sort may pick its strategy by length: insertion sort below a cutoff, blocks of
 	// a fixed size above it): all run-compositions into at most 3 parts, and three fixed pseudo-random key patterns
+	// ... and a ladder around the powers of two up to 4097 (thorough 32769): a sort may switch to another algorithm
+	// (an unstable one) above a size that no enumeration reaches
+	sizes := []int{}
 	for n := 5; n <= 40; n++ {
+		sizes = append(sizes, n)
+	}
+	top := 4096
+	if r.Tier == "thorough" {
+		top = 32768
+	}
+	for p := 64; p <= top; p *= 2 {
+		sizes = append(sizes, p-1, p, p+1, p+2, p+p/3)
+	}
+	for _, n := range sizes {
 		for _, mul := range []int{7, 11, 13} {
+			if n > 40 && mul == 13 {
+				continue
+			}
 			var in []rec
 			x := n * mul
 			for i := 0; i < n; i++ {
